@@ -77,7 +77,12 @@ pub fn check_layout(module: &Module) -> Result<(), LayoutError> {
         layout_hlsl.size = layout_hlsl.size.next_multiple_of(layout_hlsl.align);
         layout_metal.size = layout_metal.size.next_multiple_of(layout_metal.align);
 
-        if layout_hlsl.size != layout_metal.size {
+        let offsets_match = match offsets_match(module, ty) {
+            Some(same) => same,
+            None => return Err(LayoutError::UnknownLayout(loc)),
+        };
+
+        if layout_hlsl.size != layout_metal.size || !offsets_match {
             return Err(LayoutError::MismatchedLayout(
                 loc,
                 layout_hlsl,
@@ -165,6 +170,7 @@ fn get_type_layout(module: &Module, ty: TypeId, mode: PackingMode) -> Option<Lay
                 layout.size += member_layout.size;
                 layout.align = layout.align.max(member_layout.align);
             }
+            layout.size = layout.size.next_multiple_of(layout.align);
             Some(layout)
         }
         TypeLayer::StructTemplate(_) => panic!("unexpected struct template"),
@@ -181,5 +187,42 @@ fn get_type_layout(module: &Module, ty: TypeId, mode: PackingMode) -> Option<Lay
         TypeLayer::Array(_, None) => None,
         TypeLayer::TemplateParam(_) => panic!("unexpected template param"),
         TypeLayer::Modifier(_, ty) => get_type_layout(module, ty, mode),
+    }
+}
+
+/// Check that every field below the type has the same offset in both packing modes
+fn offsets_match(module: &Module, ty: TypeId) -> Option<bool> {
+    match module.type_registry.get_type_layer(ty) {
+        TypeLayer::Struct(sid) => {
+            let def = &module.struct_registry[sid.0 as usize];
+            let (mut offset_hlsl, mut offset_metal) = (0u32, 0u32);
+            for member in &def.members {
+                let hlsl = get_type_layout(module, member.type_id, PackingMode::HlslStructuredBuffer)?;
+                let metal = get_type_layout(module, member.type_id, PackingMode::Metal)?;
+                offset_hlsl = offset_hlsl.next_multiple_of(hlsl.align);
+                offset_metal = offset_metal.next_multiple_of(metal.align);
+                if offset_hlsl != offset_metal || !offsets_match(module, member.type_id)? {
+                    return Some(false);
+                }
+                offset_hlsl += hlsl.size;
+                offset_metal += metal.size;
+            }
+            Some(true)
+        }
+        TypeLayer::Array(inner, Some(count)) => {
+            if count == 0 {
+                return Some(true);
+            }
+            let hlsl = get_type_layout(module, inner, PackingMode::HlslStructuredBuffer)?;
+            let metal = get_type_layout(module, inner, PackingMode::Metal)?;
+            if count > 1
+                && hlsl.size.next_multiple_of(hlsl.align) != metal.size.next_multiple_of(metal.align)
+            {
+                return Some(false);
+            }
+            offsets_match(module, inner)
+        }
+        TypeLayer::Modifier(_, ty) => offsets_match(module, ty),
+        _ => Some(true),
     }
 }
